@@ -175,7 +175,7 @@ def run(cx: Cx):
     for s in csites:
         v = s.ev.data.get('value')
         if s.kind == 'rebind':
-            if s.fn.name == '__init__' and isinstance(v, Fresh) and v.kind == 'dict' and not v.items:
+            if s.owner_name == '__init__' and isinstance(v, Fresh) and v.kind == 'dict' and not v.items:
                 cx.ok('R-SHARED', 'Agent.components allocated fresh per instance', where=s.where, function=s.fn.qualname)
             else:
                 cx.violation('R-DISC', s.fn.qualname, 'components-rebound',
@@ -269,10 +269,10 @@ def run(cx: Cx):
     cx.floor('deregister_component success paths', n, 2)
     psites = cx.effects.sites_of(PLOC)
     for s in psites:
-        if s.fn.qualname in (reg.qualname, dereg.qualname):
+        if s.owner_q in (reg.qualname, dereg.qualname):
             continue
         v = s.ev.data.get('value')
-        if s.fn.qualname == CORE + 'SystemManager.__init__' and s.kind == 'rebind' and isinstance(v, Fresh) and v.kind == 'dict' and not v.items:
+        if s.owner_q == CORE + 'SystemManager.__init__' and s.kind == 'rebind' and isinstance(v, Fresh) and v.kind == 'dict' and not v.items:
             cx.ok('R-SHARED', 'component_pools allocated fresh per SystemManager', where=s.where, function=s.fn.qualname)
         else:
             cx.violation('R-DISC', s.fn.qualname, f"component_pools-{s.kind}",
